@@ -501,10 +501,40 @@ def unescape(s):
     return unescape_z3_string(s)
 
 
+WS_CHARS_STR = [' ', '\t', '\n', '\r', '\x0b', '\x0c', '\x1c', '\x1d', '\x1e', '\x1f', '\x85', '\xa0']
+WS_CHARS_BYTES = [' ', '\t', '\n', '\r', '\x0b', '\x0c']
+
+
+def ws_words(t, is_bytes=False):
+    """the list x.split() as a function of x: (array of words, number of words) - uninterpreted, shared by code and specifications"""
+    arr = fn('ws_words', S(), z3.ArraySort(z3.IntSort(), S()))(t)
+    n = fn('ws_count', S(), z3.IntSort())(t)
+    return arr, n
+
+
+def str_split_ws(I, v):
+    """x.split() (no separator: runs of whitespace separate, leading/trailing whitespace ignored).  The word list is the uninterpreted
+    function ws_words(x); facts used (CPython semantics, trusted and listed): the count is >= 0 and is 0 iff x consists of whitespace
+    only; no word is empty or contains a whitespace character; every word is an infix of x."""
+    I.st.trusted_used.add('str.split() without separator: list ws_words(x); length 0 iff x is all whitespace; words are non-empty, contain no '
+                          'whitespace character and are infixes of x (the common ASCII / Latin-1 whitespace characters are modelled)')
+    t = v.t
+    chars = WS_CHARS_BYTES if v.is_bytes else WS_CHARS_STR
+    wre = z3.Union(*[z3.Re(zstr(c)) for c in chars])
+    nonw = z3.Diff(z3.AllChar(z3.ReSort(S())), wre)
+    arr, n = ws_words(t, v.is_bytes)
+    I.assume(n >= 0)
+    I.assume((n == 0) == z3.InRe(t, z3.Star(wre)))
+    i = fresh('wi', z3.IntSort())
+    el = z3.Select(arr, i)
+    I.assume(z3.ForAll([i], z3.Implies(z3.And(0 <= i, i < n), z3.And(z3.Contains(t, el), z3.InRe(el, z3.Plus(nonw))))))
+    return VList(Bytes if v.is_bytes else Str, [arr], z3.IntVal(0), n)
+
+
 def str_split(I, v, args, kwargs):
     t, B = v.t, v.is_bytes
     if not args:
-        raise Unsupported('split() on whitespace')
+        return str_split_ws(I, v)
     sep = args[0].t
     maxsplit = None
     if len(args) > 1:
